@@ -265,6 +265,21 @@ def check_run(cu, cs, eps, dv_tol, bal_tol, tab, off_u, off_s):
     def V(key, what, obs=None, exp=None):
         viol.append(violation("run/" + key, what + " [u=%s s=%s eps=%g dv_tol=%g bal_tol=%g tab=%d]" % (cu, cs, eps, dv_tol, bal_tol, tab), obs, exp, case))
 
+    if (len(cu) + 2 * len(cs) + tab) % 3 == 0:
+        # one backend instance that has answered a different request before (roles swapped, wider radius, other tolerances) must answer this
+        # request exactly as a new instance does
+        be = _be._ConnectionsBackend()
+        be.run(ConnectionsBackendRequest(points_u=ps, points_s=pu, states_u=Xs, states_s=Xu, traj_indices_u=None, traj_indices_s=None,
+                                         eps=2.5 * eps, dv_tol=10 * dv_tol, bal_tol=0.5 * bal_tol))
+        rs2 = be.run(req).results
+        sig = lambda rr: [(r.index_u, r.index_s, float(r.delta_v), str(r.kind), tuple(np.asarray(r.point2d, dtype=float).tolist())) for r in rr]
+        try:
+            same = sig(rs) == sig(rs2)
+        except Exception:
+            same = len(rs) == len(rs2)
+        if not same:
+            V("reused_backend", "a backend instance that answered another request before returns %d results, a new instance %d (or they differ in content)" % (len(rs2), len(rs)), len(rs2), len(rs))
+
     seen_i, seen_j = set(), set()
     last = -1.0
     for r in rs:
